@@ -216,3 +216,48 @@ class parse_der_native:
             r = rng.randrange(2 ** 200, N)
             s = rng.randrange(2 ** 200, N) + (r << 256)        # high part of s only sets bits that r has
         return {'r': r, 's': s, 'hash_type': rng.choice([1, 1, 2, 3, 0x81])}
+
+
+@contract('bitcoinlib.keys.verify', case='forged-for-offcurve-key-native', props=('C13',))
+class verify_offcurve_forgery:
+    """a signature constructed WITHOUT any private key for a public key that is not a point of the curve - the pair (0, 0), which point
+    arithmetic treats as neutral, or (1, 2), which lies on y^2 = x^3 + 3 - is never accepted, through verify() and Signature.verify(), with the
+    key given as a Key object (standard ECDSA refuses such keys before anything else)"""
+    params = {'z': Int(0, N - 1), 't': Int(1, N - 1), 'which': Int(0, 3)}
+    native_only = True
+    bounded = 'random digests / multipliers; two off-curve keys; key passed as Key object'
+
+    def build(z, t, which):
+        from spec import ec as _ec
+        from bitcoinlib.keys import verify as _verify
+
+        def run():
+            if which % 2 == 0:
+                # Q = (0, 0): u1*G + u2*Q = u1*G, so any (r, s) with r = ((z/s)*G).x verifies arithmetically
+                q, s = (0, 0), t
+                r = _ec.mul_g(z * pow(s, -1, N) % N)[0] % N if z else 0
+                digest = z
+            else:
+                # Q = (1, 2), digest 0: r = (t*Q).x, s = r/t (the affine formulas do not involve the curve constant b)
+                q = (1, 2)
+                pt = _ec.mul(t, q)
+                r = pt[0] % N if pt else 0
+                s = r * pow(t, -1, N) % N
+                digest = 0
+            if not (0 < r < N and 0 < s < N):
+                return 'not constructible'
+            try:
+                key = Key('04' + '%064x%064x' % q)
+            except Exception:
+                return 'key refused'
+            try:
+                sig = Signature(r, s)
+                if which < 2:
+                    return bool(_verify(digest.to_bytes(32, 'big'), sig, key))
+                return bool(sig.verify(digest.to_bytes(32, 'big'), key))
+            except Exception:
+                return 'refused'
+        return run, [], {}
+
+    def ensures(z, t, which, result):
+        return result is not True
